@@ -129,6 +129,10 @@ def run_property(prop, tier, seed, ck, no_bounded=False):
             if case_json is None and fresh_bounded:
                 case_json, native = fresh_bounded[0][1]['case'], fresh_bounded[0][1]['failure']
                 harness = prop
+            if case_json is None and c.qualname in rep.get('restructured', {}):
+                # no failing input, and the loop the invariant was written for is no longer there: a failed proof (undecided)
+                undecided.append(f"obligation {name} not discharged; {rep['restructured'][c.qualname]}")
+                continue
             payload = {
                 'property': prop, 'source': 'pyvc', 'obligation': name, 'function': c.qualname, 'file': c.file,
                 'source_sha': d.src.sha, 'path_decisions': o.path, 'where': str(o.where),
